@@ -59,12 +59,22 @@ ScenariosLiveQuick ==
   \cup { Scn("in", 70016, HS, FALSE, Plan0, <<>>, TRUE), Scn("out", 70016, HS \o <<M("malformed")>>, FALSE, Plan0, <<>>, FALSE) }
 
 \* thorough tier ---------------------------------------------------------
-ScenariosSafetyThorough ==
-  ScenariosQuickA
-  \cup { Scn(d, 70016, scr, rc, PlanB, iv, dc) :
-           d \in {"in", "out"}, scr \in ScriptsCore, rc \in BOOLEAN, iv \in {<<>>}, dc \in BOOLEAN }
-  \cup { Scn("in", 70016, HS, FALSE, PlanB, <<"tx">>, TRUE), Scn("in", 70016, HS, FALSE, PlanB, <<"block">>, TRUE),
-          Scn("out", 70016, HS, FALSE, PlanA, <<>>, TRUE) }
+NoHandshakeAll == { <<M("verack")>>, <<Ver(208)>>, <<>>, <<VerSelf>>, <<Ver(70016)>>, <<M("malformed")>>, <<Ver(70016), M("ping")>> }
+ThA == { Scn(d, 70016, scr, FALSE, PlanA, <<>>, TRUE) : d \in {"in", "out"}, scr \in NoHandshakeAll }
+PostScripts == {
+  HS,
+  HS \o <<M("ping")>>,
+  HS \o <<M("malformed")>>,
+  HS \o <<M("verack")>>,
+  <<Ver(209), M("verack"), M("ping"), M("wrongmagic")>>,
+  <<Ver(70016), M("sendaddrv2"), M("unknown"), M("verack"), M("unknown"), M("getaddr")>>,
+  <<Ver(70017), M("verack"), M("sendaddrv2")>>,
+  <<Ver(70001), M("sendaddrv2"), M("verack")>> }
+ThB == { Scn("in", 70016, scr, FALSE, PlanB, <<>>, TRUE) : scr \in PostScripts }
+ThC == { Scn("out", 70016, scr, TRUE, PlanB, <<>>, FALSE) : scr \in {HS, HS \o <<M("ping")>>, HS \o <<M("malformed")>>} }
+ThD == { Scn("in", 70016, HS, FALSE, PlanB, iv, TRUE) : iv \in {<<"tx">>, <<"block">>} }
+ThE == { Scn("in", 70016, HS, FALSE, PlanA, <<>>, TRUE) }
+ScenariosSafetyThorough == ThA \cup ThB \cup ThC \cup ThD \cup ThE
 ScenariosTimers ==
   { Scn(d, 70016, scr, FALSE, PlanB, <<>>, FALSE) : d \in {"in", "out"}, scr \in {HS, <<Ver(70016)>>} }
 ScenariosLiveThorough ==
